@@ -31,8 +31,8 @@ claim("C04",
       "DESIGN.md 3 C04")
 
 claim("C02",
-      "Theorems (all trees, pattern lists, matchers, listing orders, histories): the traversal hands the command exactly the entries no pattern excludes -- a permutation of the specification `entries`, each entry once, nothing below an ignored folder -- and is independent of the order in which a folder is listed; each entry is routed to the deepest loaded history containing it and recorded under root ++ relative = path (no foreign components, so never absolute or escaping); inserting into a generation's record list never duplicates a path; every digest written is the digest of the file's bytes in the entry's own format. Tied to the code by lockstep runs of the extracted create model (folder / -sf / nested / -n / patterns) against the real tool on random trees (names with spaces, non-ASCII, XML-special, glob characters) and by an independent oracle comparing every new manifest with the tree.",
-      "PARTIAL: the composition of these steps inside create (fold over the traversal events, session, commit) is not a theorem; it is carried by the correspondence.",
+      "END-TO-END theorem for a tree whose only history is the root's (any prior generations, any patterns / formats / -n): create in folder mode writes one generation whose record paths are exactly the entries no ignore pattern excludes -- every one, each once, nothing else (fold invariant over the traversal events + session + commit, joined with the traversal theorem). Step theorems for the general nested case (all trees, pattern lists, matchers, listing orders, histories): the traversal hands the command exactly the entries no pattern excludes -- a permutation of the specification `entries`, each entry once, nothing below an ignored folder -- and is independent of the order in which a folder is listed; each entry is routed to the deepest loaded history containing it and recorded under root ++ relative = path (no foreign components, so never absolute or escaping); inserting into a generation's record list never duplicates a path; every digest written is the digest of the file's bytes in the entry's own format. Tied to the code by lockstep runs of the extracted create model (folder / -sf / nested / -n / patterns) against the real tool on random trees (names with spaces, non-ASCII, XML-special, glob characters) and by an independent oracle comparing every new manifest with the tree.",
+      "PARTIAL: for NESTED histories and for -sf mode the composition of the step theorems (routing, session, commit) is carried by the correspondence, not by one theorem.",
       "Coq proof (nested induction over trees, permutation reasoning, fold invariants) + extracted-model lockstep correspondence + manifest-vs-tree oracle",
       "DESIGN.md 3 C02")
 claim("C07",
